@@ -134,6 +134,8 @@ def object_events(entry, enc, tid0, rng, quick, run):
         if hasattr(dec, "forward"):
             variants += [(kd, (lambda r, o=o2_: o(r))) for kd, o2_ in module_forms(dec, kinds=("deepcopy", "pickle", "eval"))]
         variants += [(kd, (lambda r, c=c_: _under(c, dec, r))) for kd, c_ in call_contexts()]
+        from .core import noncontiguous, transposed_view
+        variants += [("strided view", (lambda r: dec(noncontiguous(r)))), ("transposed view", (lambda r: dec(transposed_view(r))))]
         for kd, fn in variants:
             try:
                 o3, _ = _decode_all(fn, R[:sub2], k, want_errors=False)
